@@ -1,6 +1,6 @@
 #!/bin/bash
 # usage: confirm.sh <PROP> <n>   — confirms a sub-agent mutant in its worktree /tmp/wt_<PROP>
-P=$1; N=$2; WT=/tmp/wt_$P; D=$WT/out/$N; LOG=$D/confirm.log
+P=$1; N=$2; WT=${SEED_WT_PREFIX:-/tmp/wt_}$P; D=$WT/out/$N; LOG=$D/confirm.log
 cd $WT || exit 2
 git checkout -q -- . ; git clean -fdq tests
 : > $LOG
